@@ -94,7 +94,7 @@ def lin(e, env):
     if k == "paren":
         return lin(e.get("e"), env)
     if k == "ref":
-        if e.get("d") == "local" and e["n"] in env.locals:
+        if e.get("d") in ("local", "param") and e["n"] in env.locals:
             return env.locals[e["n"]]
         if e.get("d") in ("param", "local"):
             return sym(e["n"])
@@ -111,6 +111,20 @@ def lin(e, env):
         if a is not None and b is not None and (a.is_const() or b.is_const()):
             cst, other = (a, b) if a.is_const() else (b, a)
             return Lin(dict((s, v * cst.k) for s, v in other.c.items()), other.k * cst.k)
+        return None
+    if k == "cond":
+        # x < y ? x : y  is min(x, y);  x > y ? x : y  is max(x, y)  (either operand order)
+        c = astx.strip_casts(e["c"])
+        if c is not None and c.get("k") == "bin" and c["op"] in ("<", ">", "<=", ">="):
+            a, b = lin(c["l"], env), lin(c["r"], env)
+            t, f_ = lin(e["t"], env), lin(e["f"], env)
+            if None not in (a, b, t, f_) and {repr(t), repr(f_)} == {repr(a), repr(b)}:
+                picks_left = repr(t) == repr(a)
+                less = c["op"] in ("<", "<=")
+                kind = "min" if (picks_left == less) else "max"
+                name = "%s(%s)" % (kind, "|".join(sorted(repr(x) for x in (a, b))))
+                env.minmax[name] = (kind, [a, b])
+                return sym(name)
         return None
     if k == "un" and e["op"] == "&":
         inner = astx.strip_casts(e["e"])
@@ -174,9 +188,50 @@ def lin(e, env):
             x, y = lin(a[0], env), lin(a[1], env)
             if x is not None and y is not None:
                 return y - x
+        h = _inline_helper(e, env)
+        if h is not None:
+            return h
         # opaque value
         return sym("{%s}" % astx.show(e, 60))
     return None
+
+
+def _inline_helper(call, env, depth=0):
+    """value of a call of a small own member (declarations followed by one return) with linear arguments"""
+    db = getattr(env, "db", None)
+    rec = env.func.get("record")
+    if db is None or not rec or getattr(env, "_depth", 0) > 2:
+        return None
+    nm, q, recv, kind = astx.callee(call)
+    own = (kind == "member" and astx.is_this(recv)) or (kind == "free" and not (call["f"].get("qual") or "") and call["f"].get("d") in ("unresolved", "CXXMethod", "func"))
+    if not own or not nm:
+        return None
+    cands = [g for g in db.methods(rec, nm) if len(g["params"]) == len(call["a"]) and g.get("body") is not None]
+    if len(cands) != 1:
+        return None
+    g = cands[0]
+    body = g["body"]["s"] if g["body"].get("k") == "seq" else [g["body"]]
+    body = [st for st in body if st.get("k") != "null"]
+    if not body or body[-1].get("k") != "return" or any(st.get("k") not in ("decl", "return") for st in body):
+        return None
+    args = [lin(a, env) for a in call["a"]]
+    if None in args:
+        return None
+    sub = Env(g, False)
+    sub.size, sub.minmax, sub.bounded, sub.pre = env.size, env.minmax, env.bounded, env.pre
+    sub.db = db
+    sub._depth = getattr(env, "_depth", 0) + 1
+    for p_, a_ in zip(g["params"], args):
+        sub.locals[p_["n"]] = a_
+    for st in body[:-1]:
+        for v in st["vars"]:
+            if "other" in v or v.get("init") is None:
+                continue
+            t = lin(v["init"], sub)
+            if t is None:
+                return None
+            sub.locals[v["n"]] = t
+    return lin(body[-1].get("e"), sub)
 
 
 def callee_qual(call):
@@ -379,7 +434,7 @@ def shrink_fact(path_facts, new, env):
     return False
 
 
-def check_function(chk, f, want_destroy, rules, only=("W", "D", "C")):
+def check_function(chk, f, want_destroy, rules, only=("W", "D", "C"), db=None):
     """returns number of size stores judged"""
     construct = astx.sig(f)
     is_ctor = f.get("kind") == "ctor" or f["n"] == "<ctor>"
@@ -387,6 +442,7 @@ def check_function(chk, f, want_destroy, rules, only=("W", "D", "C")):
     reported = set()
     for p in SP.paths(f["body"]):
         env = Env(f, is_ctor)
+        env.db = db
         evs = []
         facts = []
         lin_facts = []
@@ -556,7 +612,7 @@ def check(chk, db, records, want_destroy, skip=("unsafe_set_size", "set_size"), 
             continue
         if "U" not in only and not any(x.get("k") == "call" and astx.callee(x)[0] in SIZE_STORES for x in astx.all_exprs(f, into_lambdas=False)):
             continue
-        n += check_function(chk, f, want_destroy(r), ("SLOTS-W",), only)
+        n += check_function(chk, f, want_destroy(r), ("SLOTS-W",), only, db)
     return n
 
 
@@ -810,6 +866,7 @@ def check_post(chk, db, records, rule="POST"):
         body = summarise_loops(f["body"], plus_one)
         for p in SP.paths(body):
             env = Env(f, False)
+            env.db = db
             names = [q["n"] for q in f["params"]]
             for i in bounded_idx:
                 env.bounded.add(names[i])
@@ -963,7 +1020,8 @@ def check_post(chk, db, records, rule="POST"):
                     flat.append(s0)
             flat = sorted(set(t for t in flat if t not in env.minmax))
             found = None
-            if len(flat) <= 4:
+            opaque = any(t.startswith("{") or t.startswith("&") for t in flat)
+            if len(flat) <= 4 and not opaque:
                 cap = 7
                 for vals in itertools.product((0, 1, 2, cap - 1, cap), repeat=len(flat)):
                     asg = dict(zip(flat, vals))
